@@ -140,6 +140,7 @@ impl Ev {
 }
 
 pub const PANIC_MARK: &str = "simulated client crash";
+pub const BUDGET_MARK: &str = "simulated seam-call budget exceeded";
 
 /// Shared state of reader + writer + closure of one operation.
 #[derive(Debug)]
@@ -187,6 +188,8 @@ pub struct World {
     pub probe_read_filled_buffer: u64,
     pub probe_short_write: u64,
     pub probe_write_interrupted: u64,
+    /// hard cap on read calls (threadsim): exceeding it panics with BUDGET_MARK
+    pub max_read_calls: Option<usize>,
     /// set while the replacement closure is running
     pub in_closure: bool,
     pub probe_write_fault_in_closure: u64,
@@ -228,6 +231,7 @@ impl World {
             probe_read_filled_buffer: 0,
             probe_short_write: 0,
             probe_write_interrupted: 0,
+            max_read_calls: None,
             in_closure: false,
             probe_write_fault_in_closure: 0,
             probe_write_fault_in_nonmatch: 0,
@@ -249,6 +253,11 @@ impl World {
     }
 
     fn do_read(&mut self, buf: &mut [u8]) -> io::Result<usize> {
+        if let Some(max) = self.max_read_calls {
+            if self.read_calls >= max {
+                panic!("{}", BUDGET_MARK);
+            }
+        }
         let call = self.read_calls;
         self.read_calls += 1;
         if let Some(k) = self.pending_read_err {
